@@ -422,6 +422,8 @@ MUTANTS = [
                 })?;
         }
 
+        #[cfg(fjall_verif)]
+        crate::verif::pause("writer.before_apply");
         let (item_size, memtable_size) = self.tree.insert(key, value, seqno);""", """        if !self.config.manual_journal_persist && !value.is_empty() {
             journal_writer
                 .persist(crate::PersistMode::Buffer)
@@ -431,6 +433,8 @@ MUTANTS = [
                 })?;
         }
 
+        #[cfg(fjall_verif)]
+        crate::verif::pause("writer.before_apply");
         let (item_size, memtable_size) = self.tree.insert(key, value, seqno);""")]},
     {'name': 'persist clears the dirty flag before flushing and returns early on Buffer', 'edits': [('src/journal/writer.rs', """        if self.is_buffer_dirty {
             #[cfg(fjall_verif)]""", """        if mode == PersistMode::Buffer && !self.path.as_os_str().is_empty() && self.buf.len() > 1_000_000 {
